@@ -47,3 +47,15 @@ chk("C06", MC,
     "other map variable changes. A violating schedule is replayed on k concrete interpreters sharing one memory.",
     BASE_NOTE + " BPF_XADD is one indivisible step (hardware/kernel contract).",
     "SMT-based bounded model checking with symbolic scheduler over the emitted eBPF (z3 BV)", "A:8/C06")
+
+chk("C22", MC,
+    "The real EtherXDP bytecode (assembled as the library does; on this tree only under a recorded harness workaround, "
+    "see known findings) is executed symbolically. One pass: exits partition all inputs, never DROP at the default "
+    "rate, foreign / non-identification frames PASS with frame and counters unchanged, frames handed to user space "
+    "carry the identification datagram's ethertype, TX/tail-call frames change only the index byte, memory safety -- "
+    "for ALL frames, lengths, counters. Histories: bounded model checking with the merged execution of the real "
+    "bytecode as transition function, symbolic action per step (deliver any/lose any/inject), symbolic initial "
+    "counter, <=3 frames in flight, depth 14 (24).",
+    BASE_NOTE + " Reading of 'pass' used for the registered-group bound: handed to user space (XDP_PASS); the stricter "
+    "reading is reported as informational only (DESIGN.md C22).",
+    "SMT symbolic execution + bounded model checking of the emitted dispatcher (z3 BV)", "A:8/C22")
